@@ -94,31 +94,42 @@ def observe_case(spec):
     gtext = E.grammar_text(G)
     case = {'gtext': gtext, 'inputs': [], 'skip': '', 'cyclic': False, 'family': spec['family'], 'spec': spec, 'walks': [], 'ka': False, 'ph': False}
     parsers = {}
+    mt = bool(spec.get('multitok'))
+    case['multitok'] = mt
+    T4 = c03.tree4
+    if mt:
+        from . import mtok
+        T4 = mtok.tree4m
+    lexers = [lx for lx in LEXERS if lx in spec.get('lexers', LEXERS)]
     try:
-        for lx in LEXERS:
+        for lx in lexers:
             with O.budget(30):
                 parsers[lx] = Lark(gtext, parser='earley', lexer=lx, ambiguity='forest')
     except Exception as ex:
         case['skip'] = 'construct %s' % type(ex).__name__
         return case
-    p0 = parsers['basic']
+    p0 = parsers[lexers[0]]
     brules = [(str(r.origin.name), [str(s.name) for s in r.expansion]) for r in p0.rules]
     case['cyclic'] = E.deriv_cyclic(brules)
     case['G'] = E.grammar_json(E.from_compiled(p0.rules), False, False)
-    for w in spec['inputs']:
-        text = E.to_text(w)
+    for wi, w in enumerate(spec['inputs']):
+        text = ''.join(w) if mt else E.to_text(w)
+        toks = spec['toks'][wi] if mt else []
+        if mt and mtok.deriv_total(brules, toks, 80) > 80:
+            case['too_ambiguous'] = case.get('too_ambiguous', 0) + 1
+            continue
         exp = []
-        for lx in LEXERS:
+        for lx in lexers:
             rec = {'cfg': 'earley/' + lx, 'out': 0, 'tree': ['N', '', 0, []], 'one': ['N', '', 0, []], 'isamb': False,
                    'collrun': False, 'collok': True, 'coll': []}
             try:
                 with O.budget(20):
                     root = parsers[lx].parse(text)
-                    rec['tree'] = c03.tree4(TreeForestTransformer(resolve_ambiguity=False).transform(root))
+                    rec['tree'] = T4(TreeForestTransformer(resolve_ambiguity=False).transform(root))
                     if c03.expand_count(rec['tree']) > 300:
                         case['too_ambiguous'] = case.get('too_ambiguous', 0) + 1
                         rec['skipme'] = True
-                    rec['one'] = c03.tree4(TreeForestTransformer(resolve_ambiguity=True).transform(root))
+                    rec['one'] = T4(TreeForestTransformer(resolve_ambiguity=True).transform(root))
                     rec['isamb'] = bool(root.is_ambiguous)
                     ForestSumVisitor().visit(root)
                 if spec.get('walk') and len(case['walks']) < 12:
@@ -131,7 +142,7 @@ def observe_case(spec):
                 rec['exc'] = type(ex).__name__
             if not rec.get('skipme'):
                 exp.append(rec)
-        case['inputs'].append({'w': list(w), 'obs': [], 'exp': exp})
+        case['inputs'].append({'w': list(w), 'obs': [], 'exp': exp, 'toks': toks, 'text': text, 'vmap': mtok.vmap(text, toks) if mt else []})
     return case
 
 
@@ -219,6 +230,8 @@ def specs(tier, rng):
             if s is not None:
                 ins.add(s)
         out.append({'G': G, 'inputs': sorted(ins), 'family': 'F_ebnf(compiled)', 'walk': i % 3 == 0})
+    from . import mtok
+    out += mtok.specs(C.scale(400 if tier == 'quick' else 4000), rng, walk=False)
     return out
 
 
@@ -250,6 +263,9 @@ def body(tier, seed, replay):
             ev.count('cyclic_grammars' if c['cyclic'] else 'acyclic_grammars')
             walks += c['walks']
             for i in c['inputs']:
+                if c.get('multitok'):
+                    ev.count('multitok_inputs')
+                    ev.count('multitok_inputs_with_several_tokenisations', len(i['toks']) > 1)
                 for o in i['exp']:
                     ev.count('forest_parses')
                     if o['out'] == 0:
@@ -263,7 +279,7 @@ def body(tier, seed, replay):
         ev.cov['traces_validated_against_impl'] = ev.cov['counts'].get('forest_parses', 0) + len(walks) + len(syn)
         c = next(c for c in cases if any(o['isamb'] for i in c['inputs'] for o in i['exp']))
         i = next(i for i in c['inputs'] if any(o['isamb'] for o in i['exp']))
-        ev.sample({'grammar': c['gtext'], 'text': E.to_text(i['w']), 'forest_transformed': i['exp'][0]['tree']})
+        ev.sample({'grammar': c['gtext'], 'text': i['text'], 'forest_transformed': i['exp'][0]['tree']})
         ev.sample({'walk': {k: syn[7][k] for k in ('S', 'single', 'ev')}})
         c03.judge(PID, cases, ev, rep, tmp, 'forest')
         judge_walks(walks, ev, rep, tmp, 'real')
